@@ -15,6 +15,11 @@ package core_test
 //
 // Oracle of (b): every input ends in an error or a value that all later operations handle; a panic
 // that escapes charon's code (the handlers have no recovery) is a violation.
+//
+// Part (c), zz_verif_c14ints_test.go: the small-scope value alphabet of every integer field of every unit, one
+// field at a time (thorough: pairs of the wrapper-level fields), through every codec.
+// Part (d), zz_verif_c14dec_test.go: prefix x body x suffix around the SSZ-or-JSON format detection, every later
+// operation applied to an accepted value on its own, then the receive paths above.
 
 import (
 	"bytes"
